@@ -16,7 +16,7 @@ def keyfn(case, res, m):
 
 def run(chk):
     chk.audit(PROPS)
-    n = 100 if chk.tier == 'quick' else 1200
+    n = 100 if chk.tier == 'quick' else 1000
     results = core.e1_flow(chk, 'scen_refcount', 'refcount', {'C13'},
                  lambda rng: scen_refcount.gen_case(rng, chk.tier),
                  n, keyfn=keyfn, sched=False, engine='E4-manager-processes+lean',
